@@ -517,7 +517,36 @@ R17 = {
 S.update(R17)
 ROUND17 = set(R17)
 
-MISSED_FIRST = {"C13-15", "C01-31", "C10-13", "C17-24", "C19-26", "C07-20", "C08-22", "C08-23", "C11-37", "C11-38", "C18-17", "C01-30", "C11-32", "C11-33", "C14-20", "C15-15", "C19-24", "C19-25", "C11-35", "C18-16", "C01-26", "C04-19", "C05-18", "C08-19", "C09-16", "C11-27", "C01-28", "C02-14", "C09-18", "C19-21", "C19-22", "C01-22", "C03-19", "C03-20", "C05-17", "C07-18", "C09-14", "C11-26", "C15-14", "C16-18", "C19-20", "C05-13", "C05-14", "C05-15", "C09-13", "C11-22", "C13-14", "C19-16", "C19-17", "C19-18", "C11-16", "C11-20", "C11-21", "C15-13", "C11-14", "C11-15", "C17-13", "C19-14", "C06-13", "C07-13", "C14-15", "C14-16", "C17-15", "C17-16", "C19-15", "C02-11", "C02-12", "C06-12", "C13-12", "C14-11", "C15-12", "C16-13", "C01-11", "C01-12", "C04-11", "C05-11", "C07-11", "C08-12", "C09-11", "C11-11", "C13-11", "C17-11", "C19-11", "C19-12", "C19-13", "C01-9", "C02-10", "C07-10", "C10-10", "C13-10", "C15-10", "C04-8", "C08-8", "C11-8", "C15-7", "C18-7", "C18-8", "C06-3", "C07-1", "C11-3", "C13-2", "C19-1", "C19-2", "C01-6", "C04-6", "C05-6", "C12-5", "C15-6"}
+# ---- round 18 (2026-10-04, one agent per remaining property, told that the obvious mechanisms were taken: process-level state,
+# rarely used fields, boundary sizes, two cooperating sites; 22 verified, 5 missed on the first run, all caught now)
+R18 = {
+ "C01-38": ("LDAPResult._pack_inner writes the enum member instead of .value (pseudo-members built by _missing_ are int 0)", "a result code with no LDAPResultCode member"),
+ "C01-39": ("decoded attribute descriptions interned in a module-level dict keyed by lower case: first spelling wins", "two entries (or one) with attribute names differing only in case, same process"),
+ "C03-23": ("write_enumerated gets the enum member (result code, scope, deref): unknown codes go out as 0", "result code outside the table (118, 4096...)"),
+ "C03-24": ("LDAPControl.pack writes self.value when set: a decoded known control re-sent carries the peer's octets", "PagedResultControl received in another valid BER form, then handed to the next request"),
+ "C04-22": ("long-form length via int.from_bytes of the octets that have arrived", "AD-style 30 84 00 00 .. cut inside the length octets"),
+ "C04-23": ("BOOLEAN fast path struct.unpack_from('xx?') assumes a one-octet length", "BOOLEAN with a long-form length (01 84 00 00 00 01 FF)"),
+ "C05-25": ("diagnosticMessage decoded with surrogateescape; the server's own notice then fails to encode", "server receives a notice of disconnection whose diagnostic text is not UTF-8"),
+ "C05-26": ("envelope [10] condition reordered: msg.name read on messages that have no name", "non-extended message with a non-empty trailing [10]"),
+ "C08-25": ("envelope scan breaks after the controls: MS-ADTS [10] responseName after controls is not read", "AD-form notice of disconnection with controls before [10], id outstanding"),
+ "C08-26": ("module-level set of message types that passed the BINDING gate", "any server sends a notice while BINDING, later an ExtendedResponse while BINDING in any session"),
+ "C11-39": ("FilterOptions index built on first unpack and never refreshed", "search, then register_filter on both sides, then a search with the custom filter"),
+ "C11-40": ("ASN1Reader.__bool__ is len > 1: a lone trailing octet on the un-buffered path is dropped", "delivery on an empty buffer ending exactly one octet into the next message"),
+ "C14-22": ("'=' located with str.find using byte offsets", "multi-byte character in an earlier item of a compound filter"),
+ "C14-23": ("process-wide cache of validated attributes keyed by lower case returns the first spelling", "same attribute in another letter case later in the process"),
+ "C15-21": ("escape check replaced by bytes.fromhex, which skips blanks", "backslash + two blanks as a whole substring component"),
+ "C15-22": ("process-wide attribute cache shared with extensible-match headers (which skip the RFC 4512 check)", "(cn:rule:=v) then (cn:rule=v) in one process"),
+ "C16-22": ("_parse_oids under lru_cache: parsed definitions share list objects", "caller edits a parsed definition's list, then parses another definition with the same clause"),
+ "C16-23": ("LDIF-style unfolding of the whole input, inside quoted strings too", "DESC / extension value containing a line break followed by a space"),
+ "C17-25": ("extension memo keyed by the text with runs of spaces collapsed (inside quotes too)", "two definitions whose extension values differ only in inner spacing, same process"),
+ "C17-26": ("second SYNTAX regex demands a length starting 1-9 while the outer accepts {0}", "SYNTAX 1.2{0}"),
+ "C19-27": ("ShowDeleted/ShowDeactivatedLink unpack returns one shared instance; unpack_ldap_control then sets .value on it", "these controls received with a value, then again with another/none"),
+ "C19-28": ("filter index cached under id(options), rebuilt only when the count changes", "a session with a custom filter is dropped; a new session's options reuse the address"),
+}
+S.update(R18)
+ROUND18 = set(R18)
+
+MISSED_FIRST = {"C03-24", "C05-25", "C08-25", "C11-39", "C15-21", "C13-15", "C01-31", "C10-13", "C17-24", "C19-26", "C07-20", "C08-22", "C08-23", "C11-37", "C11-38", "C18-17", "C01-30", "C11-32", "C11-33", "C14-20", "C15-15", "C19-24", "C19-25", "C11-35", "C18-16", "C01-26", "C04-19", "C05-18", "C08-19", "C09-16", "C11-27", "C01-28", "C02-14", "C09-18", "C19-21", "C19-22", "C01-22", "C03-19", "C03-20", "C05-17", "C07-18", "C09-14", "C11-26", "C15-14", "C16-18", "C19-20", "C05-13", "C05-14", "C05-15", "C09-13", "C11-22", "C13-14", "C19-16", "C19-17", "C19-18", "C11-16", "C11-20", "C11-21", "C15-13", "C11-14", "C11-15", "C17-13", "C19-14", "C06-13", "C07-13", "C14-15", "C14-16", "C17-15", "C17-16", "C19-15", "C02-11", "C02-12", "C06-12", "C13-12", "C14-11", "C15-12", "C16-13", "C01-11", "C01-12", "C04-11", "C05-11", "C07-11", "C08-12", "C09-11", "C11-11", "C13-11", "C17-11", "C19-11", "C19-12", "C19-13", "C01-9", "C02-10", "C07-10", "C10-10", "C13-10", "C15-10", "C04-8", "C08-8", "C11-8", "C15-7", "C18-7", "C18-8", "C06-3", "C07-1", "C11-3", "C13-2", "C19-1", "C19-2", "C01-6", "C04-6", "C05-6", "C12-5", "C15-6"}
 NOT_CAUGHT = {"C10-7", "C11-12"}
 PREEMPTIVE = {"C05-9", "C07-9", "C08-9", "C08-10", "C10-9", "C11-10", "C14-10", "C15-9", "C17-10", "C18-9", "C18-10", "C19-9", "C01-8", "C02-7", "C05-8", "C07-8", "C09-7", "C13-8", "C16-7", "C16-8", "C19-7", "C19-8", "C02-5", "C02-6", "C06-6", "C07-4", "C07-6", "C12-4", "C13-5", "C13-6", "C16-5", "C19-4", "C19-5", "C19-6"}
 n = 0
@@ -532,7 +561,7 @@ for mid, (summary, needs) in S.items():
                                       "missed (workload strengthened afterwards, DESIGN 11.4)" if mid in MISSED_FIRST else
                                       "not run before strengthening: judged a miss from the change description (no such inputs in the workload), workload strengthened first (DESIGN 11.4)" if mid in PREEMPTIVE else "caught")
     k_ = int(mid.split("-")[1])
-    m["round"] = 17 if mid in ROUND17 else 16 if mid in ROUND16 else 15 if mid in ROUND15 else 14 if mid in ROUND14 else 13 if mid in ROUND13 else 12 if mid in ROUND12 else 11 if mid in ROUND11 else 10 if mid in ROUND10 else 9 if mid in ROUND9 else 8 if mid in ROUND8 else 7 if mid in ROUND7 else 6 if mid in ROUND6 else 5 if k_ >= 11 else 4 if k_ >= 9 else 3 if k_ >= 7 else 2 if k_ >= 4 else 1
+    m["round"] = 18 if mid in ROUND18 else 17 if mid in ROUND17 else 16 if mid in ROUND16 else 15 if mid in ROUND15 else 14 if mid in ROUND14 else 13 if mid in ROUND13 else 12 if mid in ROUND12 else 11 if mid in ROUND11 else 10 if mid in ROUND10 else 9 if mid in ROUND9 else 8 if mid in ROUND8 else 7 if mid in ROUND7 else 6 if mid in ROUND6 else 5 if k_ >= 11 else 4 if k_ >= 9 else 3 if k_ >= 7 else 2 if k_ >= 4 else 1
     if mid in ORIGIN5:
         m["origin"] = "independent sub-agent given the 19 property statements, a scratch worktree and one-line summaries of the earlier seeded changes (nothing else from /verif)"
     json.dump(m, open(p, "w"), indent=1)
